@@ -188,6 +188,11 @@ def make_array(recipe, shapes):
         a = make_array(recipe['x'], shapes) * make_array(recipe['y'], shapes)
     elif kind == 'add':
         a = make_array(recipe['x'], shapes) + make_array(recipe['y'], shapes)
+    elif kind == 'set':
+        # a base array with individual pixels assigned: [[row, col, value], ...] (indices clipped to the shape)
+        a = np.array(make_array(recipe['x'], shapes), dtype=float)
+        for r_, c_, v_ in recipe['pixels']:
+            a[min(int(r_), a.shape[0] - 1), min(int(c_), a.shape[1] - 1)] = v_
     else:
         raise ValueError('unknown array recipe kind %r' % kind)
     dt = recipe.get('dtype')
